@@ -56,7 +56,7 @@ const BATCH_SECOND: &str = "b";
 /// evidence (`a:panics at undefined positions`) but is not a violation. On the pinned tree
 /// it does panic: didOpen("😉a"), didChange (0,1)-(0,2) := "" converts start to the end of
 /// the line (5) and end to 4, and `replace_range(5..4)` panics (the real server exits).
-const UNDEFINED_POSITIONS_MUST_NOT_PANIC: bool = false;
+const UNDEFINED_POSITIONS_MUST_NOT_PANIC: bool = true;
 
 #[derive(Clone, Debug)]
 enum Chg {
